@@ -15,6 +15,11 @@ fn main() {
         let still = match kind.as_str() {
             "uni-trace" => props::uni::replay(&v["case"]),
             "exec-trace" => props::ros::replay(&v["case"]),
+            "uni-case" => props::c06::replay(&v["case"]),
+            "ros-case" => props::c07::replay(&v["case"]),
+            "fp-case" => props::c08::replay(&v["case"]),
+            "sbf-case" | "sbf-law" => props::c0910::replay_sbf(&v["case"]),
+            "arr-case" => props::c0910::replay_arr(&v["case"]),
             _ => machinery_error(&format!("unknown replay kind {kind}")),
         };
         if still {
@@ -34,6 +39,11 @@ fn main() {
     let (level, cov, assumptions) = match id.as_str() {
         "C01" | "C02" | "C03" | "C18" => props::uni::run(&id, &mut ctx),
         "C04" | "C05" => props::ros::run(&id, &mut ctx),
+        "C06" => props::c06::run(&mut ctx),
+        "C07" => props::c07::run(&mut ctx),
+        "C08" => props::c08::run(&mut ctx),
+        "C09" => props::c0910::run_c09(&mut ctx),
+        "C10" => props::c0910::run_c10(&mut ctx),
         _ => machinery_error(&format!("unknown property {id}")),
     };
     std::process::exit(ctx.finish(&level, cov, assumptions));
